@@ -161,15 +161,24 @@ func (in *Interp) openBase() {
 	})
 	in.reg(G, "rawget", func(in *Interp, a []Value) []Value {
 		t := in.checkTable(a, 0, "rawget")
+		if len(a) < 2 {
+			in.argError(1, "rawget", "value expected") // luaL_checkany(L, 2)
+		}
 		return []Value{t.Get(arg(a, 1))}
 	})
 	in.reg(G, "rawset", func(in *Interp, a []Value) []Value {
 		t := in.checkTable(a, 0, "rawset")
+		if len(a) < 3 {
+			in.argError(len(a), "rawset", "value expected") // luaL_checkany(L, 2), (L, 3)
+		}
 		in.checkKey(arg(a, 1))
 		t.Set(arg(a, 1), arg(a, 2))
 		return []Value{t}
 	})
 	in.reg(G, "rawequal", func(in *Interp, a []Value) []Value {
+		if len(a) < 2 {
+			in.argError(len(a), "rawequal", "value expected") // luaL_checkany(L, 1), (L, 2)
+		}
 		return []Value{RawEqual(arg(a, 0), arg(a, 1))}
 	})
 	next := in.reg(G, "next", func(in *Interp, a []Value) []Value {
